@@ -95,3 +95,116 @@ def cross_field_ok(node: int, child: int, cmd: int, ack: int, typ: int) -> bool:
     if child == 255 and cmd in (SET, REQ):
         return False
     return True
+
+
+# ---------------------------------------------------------------------------
+# Registry reference model (C04, reused by C10/C13): written from the statement of C04.
+
+UNSPEC = "<unspecified>"
+
+
+class RegistryModel:
+    """nodes: id -> {type, version, battery, sketch_name, sketch_version, heartbeat, children}
+    children: id -> {type, description, values{type: payload}}.
+    Attributes the statement does not fix after a (re)presentation are UNSPEC until reported."""
+
+    def __init__(self) -> None:
+        self.nodes: dict[int, dict] = {}
+
+    def copy_key(self):
+        return repr(sorted((n, sorted((k, repr(v)) for k, v in d.items())) for n, d in self.nodes.items()))
+
+    def fresh(self, typ=UNSPEC, version=UNSPEC) -> dict:
+        return {
+            "type": typ,
+            "version": version,
+            "battery": UNSPEC,
+            "sketch_name": UNSPEC,
+            "sketch_version": UNSPEC,
+            "heartbeat": UNSPEC,
+            "children": {},
+        }
+
+    def expect(self, version: str, f: tuple) -> tuple:
+        """Expected outcome class of a received, well-formed, supported message *before* applying:
+        ("ok",) | ("missing_node", n) | ("missing_child", c)."""
+        n, c, cmd, _ack, t, _p = f
+        if cmd == PRESENTATION:
+            if c == 255:
+                return ("ok",)
+            return ("ok",) if n in self.nodes else ("missing_node", n)
+        if cmd in (SET, REQ):
+            if n not in self.nodes:
+                return ("missing_node", n)
+            if c not in self.nodes[n]["children"]:
+                return ("missing_child", c)
+            return ("ok",)
+        if cmd == INTERNAL:
+            needs_node = {I_BATTERY_LEVEL, I_SKETCH_NAME, I_SKETCH_VERSION}
+            if is2x(version):
+                needs_node |= {I_DISCOVER_RESPONSE, I_HEARTBEAT_RESPONSE}
+            if version == "2.2":
+                needs_node |= {I_PRE_SLEEP_NOTIFICATION}
+            if t in needs_node and n not in self.nodes:
+                return ("missing_node", n)
+            return ("ok",)
+        if cmd == STREAM:
+            return ("ok",) if n in self.nodes else ("missing_node", n)
+        raise ValueError(cmd)
+
+    def apply(self, version: str, f: tuple) -> None:
+        """Apply a message whose expected outcome is ok."""
+        n, c, cmd, _ack, t, p = f
+        if cmd == PRESENTATION:
+            if c == 255:
+                self.nodes[n] = self.fresh(t, p)
+            else:
+                self.nodes[n]["children"][c] = {"type": t, "description": p, "values": {}}
+        elif cmd == SET:
+            self.nodes[n]["children"][c]["values"][t] = p
+        elif cmd == INTERNAL:
+            if t == I_BATTERY_LEVEL:
+                self.nodes[n]["battery"] = round(float(p))
+            elif t == I_SKETCH_NAME:
+                self.nodes[n]["sketch_name"] = p
+            elif t == I_SKETCH_VERSION:
+                self.nodes[n]["sketch_version"] = p
+            elif t == I_HEARTBEAT_RESPONSE and is2x(version):
+                self.nodes[n]["heartbeat"] = int(p)
+
+    def placeholder(self, nid: int) -> None:
+        self.nodes[nid] = self.fresh()
+
+    def diff(self, view: dict) -> list[str]:
+        """Compare with harness.registry_view(gateway.nodes); returns differences on specified attributes."""
+        out = []
+        if set(view) != set(self.nodes):
+            out.append(f"node ids {sorted(view)} != expected {sorted(self.nodes)}")
+        for n in sorted(set(view) & set(self.nodes)):
+            m, r = self.nodes[n], view[n]
+            pairs = [
+                ("type", r["node_type"]),
+                ("version", r["protocol_version"]),
+                ("battery", r["battery_level"]),
+                ("sketch_name", r["sketch_name"]),
+                ("sketch_version", r["sketch_version"]),
+                ("heartbeat", r["heartbeat"]),
+            ]
+            if r["node_id"] != n:
+                out.append(f"node {n} carries node_id {r['node_id']!r}")
+            for name, got in pairs:
+                if m[name] != UNSPEC and m[name] != got:
+                    out.append(f"node {n} {name} = {got!r}, expected {m[name]!r}")
+            if set(r["children"]) != set(m["children"]):
+                out.append(f"node {n} children {sorted(r['children'])} != expected {sorted(m['children'])}")
+            for c in sorted(set(r["children"]) & set(m["children"])):
+                mc_, rc = m["children"][c], r["children"][c]
+                if rc["child_id"] != c:
+                    out.append(f"node {n} child {c} carries child_id {rc['child_id']!r}")
+                if rc["child_type"] != mc_["type"]:
+                    out.append(f"node {n} child {c} type = {rc['child_type']!r}, expected {mc_['type']!r}")
+                if rc["description"] != mc_["description"]:
+                    out.append(f"node {n} child {c} description = {rc['description']!r}, expected {mc_['description']!r}")
+                if rc["values"] != mc_["values"]:
+                    out.append(f"node {n} child {c} values = {rc['values']!r}, expected {mc_['values']!r}")
+        return out
